@@ -19,6 +19,14 @@ WRITE_KINDS = ("insert", "remove", "clear", "assign", "aug", "release", "acquire
 ENTRY_POINTS = ("apply", "_map", "map", "starmap", "doublestarmap", "start")
 
 
+def _is_partial_of_pkg(ctx: Ctx, n: Node) -> bool:
+    """functools.partial(<package function>, ...): freezing arguments runs nothing and consumes nothing (the iterable is only stored)"""
+    if not (n.callee.name.rpartition(".")[2] == "partial" and n.ast.args):
+        return False
+    cal = ctx.an.scope(n.func).callee(ast.Call(func=n.ast.args[0], args=[], keywords=[]))
+    return cal.kind == "pkg"
+
+
 def trace_nodes(ctx: Ctx, f: FuncInfo) -> List[Tuple[Node, str]]:
     out = []
     for n in ctx.nodes(f, lambda n: True):
@@ -32,7 +40,8 @@ def trace_nodes(ctx: Ctx, f: FuncInfo) -> List[Tuple[Node, str]]:
             why = "create_task"
         if why is None and n.user:
             why = "user code runs"
-        if why is None and n.op == "call" and n.callee is not None and n.callee.kind != "pkg" and isinstance(n.ast, ast.Call):
+        if why is None and n.op == "call" and n.callee is not None and n.callee.kind != "pkg" and isinstance(n.ast, ast.Call) \
+                and not _is_partial_of_pkg(ctx, n):
             for a in list(n.ast.args) + [k.value for k in n.ast.keywords]:
                 a = a.value if isinstance(a, ast.Starred) else a
                 if isinstance(a, ast.Name) and a.id in f.param_names() and expr_role(ctx, f, a) == "ITER":
@@ -361,9 +370,17 @@ def r_one_spawner_per_request(ctx: Ctx, rule: str, names=("apply", "_map", "star
                     arg = ctx.vals.resolve(s.func, arg)
                 if not isinstance(arg, ast.Call):
                     continue
-                t = ctx.an.scope(f).callee(arg).targets[0]
+                gfr, genv = s.func, s.env
+                if (id(arg), id(s.env)) in ctx.an.partial_syn:
+                    # `factory()` with factory = partial(self._spawner, group_name, ...): the direct call it stands for, in its own frame
+                    gfr, genv = ctx.an.partial_frame[(id(arg), id(s.env))]
+                    arg = ctx.an.partial_syn[(id(arg), id(s.env))]
+                tg_ = ctx.an.scope(gfr).callee(arg).targets
+                if not tg_:
+                    continue
+                t = tg_[0]
                 gexpr = ctx.call_arg(arg, t, "group_name")
                 for r in rets:
-                    same = gexpr is not None and (ast.unparse(gexpr) == ast.unparse(r.ast.value) or ctx.vals.same((s.func, s.env, gexpr), (r.func, r.env, r.ast.value)))
+                    same = gexpr is not None and (ast.unparse(gexpr) == ast.unparse(r.ast.value) or ctx.vals.same((gfr, genv, gexpr), (r.func, r.env, r.ast.value)))
                     rep.ob(rule, "the returned group name is the one handed to the spawner", same, node=r,
                            detail=f"spawner gets {ast.unparse(gexpr) if gexpr is not None else None}")
